@@ -216,6 +216,7 @@ pub struct Ctx {
     level: Mutex<String>,
     infra_errors: Mutex<Vec<String>>,
     strict_only_sigs: bool,
+    replay_seen: AtomicU64,
 }
 
 fn arg_val(args: &[String], name: &str) -> Option<String> {
@@ -280,6 +281,7 @@ impl Ctx {
             level: Mutex::new("exploration".into()),
             infra_errors: Mutex::new(vec![]),
             strict_only_sigs: false,
+            replay_seen: AtomicU64::new(0),
         }
     }
     pub fn is_worker(&self) -> bool {
@@ -391,7 +393,11 @@ impl Ctx {
             paths.sort();
         }
         for p in paths {
-            if let Ok(s) = std::fs::read_to_string(&p) {
+            let text = std::fs::read_to_string(&p);
+            if text.is_err() && self.is_replay() && self.replay_seen.swap(1, Ordering::Relaxed) == 0 {
+                self.infra_error(format!("cannot read replay file {}", p.display()));
+            }
+            if let Ok(s) = text {
                 if let Ok(v) = serde_json::from_str::<Value>(&s) {
                     if v["stage"].as_str() == Some(stage) && v["property"].as_str() == Some(&self.id) {
                         out.push((p, v["case"].clone()));
@@ -412,6 +418,7 @@ impl Ctx {
             match serde_json::from_value::<V>(case) {
                 Ok(v) => {
                     n += 1;
+                    self.replay_seen.store(2, Ordering::Relaxed);
                     self.stats.class("replayed");
                     let r = guarded(|| test(&v, &self.stats)).and_then(|r| r);
                     if let Err(f) = r {
@@ -735,6 +742,9 @@ impl Ctx {
         if self.is_worker() {
             std::process::exit(0);
         }
+        if self.is_replay() && self.replay_seen.load(Ordering::Relaxed) != 2 {
+            self.infra_error("--replay: no stage of this check accepted the replay file (wrong property/stage, or unreadable)".into());
+        }
         let viol = self.violations.lock().unwrap().clone();
         let hits = self.known_hits.lock().unwrap().clone();
         let infra = self.infra_errors.lock().unwrap().clone();
@@ -773,8 +783,11 @@ impl Ctx {
                 println!("KNOWN-FINDING: property={} {} [{} cases; sig {}]", self.id, k.what, n, k.sig);
             }
         }
-        for v in &viol {
+        for v in viol.iter().take(12) {
             println!("VIOLATION property={} replay={}", self.id, v.replay);
+        }
+        if viol.len() > 12 {
+            eprintln!("({} further violations listed in the evidence file / replay_out)", viol.len() - 12);
         }
         let code = if !viol.is_empty() {
             1
